@@ -1,6 +1,7 @@
 import NxProofs.ApiInventory
 import NxProofs.ApiSettings
 import NxProofs.ApiSetters
+import NxProofs.ApiWire
 /-!
 # C20 — the documented public API exists and every documented knob takes effect
 
@@ -179,5 +180,82 @@ theorem hpp_environment_takes_effect :
 /- NOT a Lean theorem (no model of object identity / TLS): `set_context`, `set_certificate`, `set_request_callback` and
    "every call hands the configured host, context and callback through" are checked on the real code only (every public
    call of every client, in harness/corr_C20.py); constructing every documented class likewise. -/
+
+/-! ## the `nex.*` settings at the RMC layer, under every negotiated connection parameter
+
+`RMCClient` encodes with its own copy of the caller's settings, adjusted to the connection (`rmcSettings`, rmc.py:126-131).  The statements
+say that this layer never takes a setting away from the caller: `nex.struct_header = 1` enables the headers on **every** connection (any
+kind, any minor version), the two values of the setting give different `login_ex` request bodies on every connection with a negotiated minor
+version below 3 (all of prudp v0 — the shipped 3ds.cfg / friends.cfg —, v1 / lite with minor version 0..2), and `nex.pid_size`,
+`nex.version`, `nex.client_version` pass through untouched on every connection.  From minor version 3 on the headers are on whatever the
+setting says (the code's rule, mirrored; the check compares it on every configuration).  Tie: harness/api_wire.py (real `RMCClient`s
+over the simulated PRUDP connection, bodies captured at a raw endpoint, driver op `wire`). -/
+
+open Nx.Api.Wire in
+/-- `nex.struct_header = 1` is honoured on every connection -/
+theorem struct_header_enabled_on_every_connection (k : Kind) (cmin smin : Nat) (c : NexCfg) (h : c.structHeader = true) :
+    (rmcSettings (negotiatedMinor k cmin smin) c).structHeader = true :=
+  rmcSettings_header_kept _ c h
+
+open Nx.Api.Wire in
+/-- below minor version 3 the connection encodes with exactly the caller's settings; prudp v0 always is below -/
+theorem rmc_uses_callers_settings_below_minor_3 (k : Kind) (cmin smin : Nat) (c : NexCfg) (h : negotiatedMinor k cmin smin < 3) :
+    rmcSettings (negotiatedMinor k cmin smin) c = c ∧ rmcSettings (negotiatedMinor .v0 cmin smin) c = c :=
+  ⟨rmcSettings_below _ c h, rmcSettings_below _ c (by rw [negotiatedMinor_v0]; omega)⟩
+
+open Nx.Api.Wire in
+/-- `nex.struct_header` takes effect on the wire of every connection with a negotiated minor version below 3: the `login_ex` request
+    bodies for the two values differ (by the 2 x 5 header bytes of `AuthenticationInfo(Data)`), for every user name and token -/
+theorem struct_header_takes_effect_on_the_wire (m : Nat) (hm : m < 3) (c : NexCfg) (user token : String) {x y : Bytes}
+    (hx : reqLoginEx (rmcSettings m { c with structHeader := false }) user token = .ok x)
+    (hy : reqLoginEx (rmcSettings m { c with structHeader := true }) user token = .ok y) : y.length = x.length + 10 ∧ x ≠ y := by
+  rw [rmcSettings_below m _ hm] at hx hy
+  exact ⟨reqLoginEx_header_len c user token hx hy, reqLoginEx_header_ne c user token hx hy⟩
+
+open Nx.Api.Wire in
+/-- from minor version 3 on the headers are on for both values (mirrors rmc.py:130-131) -/
+theorem struct_header_forced_from_minor_3 (m : Nat) (hm : 3 ≤ m) (c : NexCfg) :
+    rmcSettings m { c with structHeader := false } = rmcSettings m { c with structHeader := true } := by
+  rw [rmcSettings_from3 m _ hm, rmcSettings_from3 m _ hm]
+
+open Nx.Api.Wire in
+/-- `nex.pid_size`, `nex.version`, `nex.client_version` pass through the RMC layer on every connection … -/
+theorem rmc_keeps_pid_size_version_client_version (m : Nat) (c : NexCfg) :
+    (rmcSettings m c).pidSize = c.pidSize ∧ (rmcSettings m c).version = c.version ∧ (rmcSettings m c).clientVersion = c.clientVersion :=
+  rmcSettings_others m c
+
+open Nx.Api.Wire in
+/-- … so `request_ticket(source, target)` carries 2 x `nex.pid_size` bytes whatever the connection -/
+theorem pid_size_on_the_wire (m : Nat) (c : NexCfg) (a b : Nat) {x : Bytes} (h : reqTicket (rmcSettings m c) a b = .ok x) :
+    x.length = if c.pidSize = 8 then 16 else 8 := by
+  have := reqTicket_len (rmcSettings m c) a b h
+  rwa [(rmcSettings_others m c).1] at this
+
+open Nx.Api.Wire in
+/-- `nex.version` on the wire: with headers `RVConnectionData` grows by the 8-byte server time at 3.5.0; without headers it does not show -/
+theorem nex_version_on_the_wire (c : NexCfg) (lo hi : Nat) (hlo : lo < 30500) (hhi : 30500 ≤ hi) (main special : String)
+    (protocols : List Nat) (time : Nat) :
+    (∀ x y, wConnData { c with structHeader := true, version := lo } main special protocols time = .ok x →
+            wConnData { c with structHeader := true, version := hi } main special protocols time = .ok y → y.length = x.length + 8) ∧
+    wConnData { c with structHeader := false, version := lo } main special protocols time =
+      wConnData { c with structHeader := false, version := hi } main special protocols time :=
+  ⟨fun _ _ hx hy => wConnData_version_len c lo hi hlo hhi main special protocols time hx hy,
+   wConnData_version_without_header c lo hi main special protocols time⟩
+
+open Nx.Api.Wire in
+/-- which login method `BackEndClient.login` sends follows `nex.version` -/
+theorem backend_login_method_follows_version (c : NexCfg) (user token : String) :
+    (reqBackendLogin c user token).1 = if c.version < 40400 then 2 else 6 :=
+  reqBackendLogin_method c user token
+
+-- the hypotheses are satisfiable: a v0 connection, headers requested, both encodings exist and differ
+open Nx.Api.Wire in
+example : (reqLoginEx (rmcSettings (negotiatedMinor .v0 4 4) ⟨false, 4, 30400, 0⟩) "u" "t").toOption.map List.length = some 46 ∧
+          (reqLoginEx (rmcSettings (negotiatedMinor .v0 4 4) ⟨true, 4, 30400, 0⟩) "u" "t").toOption.map List.length = some 56 ∧
+          (reqLoginEx (rmcSettings (negotiatedMinor .v1 4 5) ⟨false, 4, 30400, 0⟩) "u" "t").toOption.map List.length = some 56 := by decide
+open Nx.Api.Wire in
+example : (reqTicket (rmcSettings 5 ⟨true, 8, 40000, 0⟩) 1 2).toOption.map List.length = some 16 := by decide
+open Nx.Api.Wire in
+example : (reqBackendLogin ⟨true, 8, 40400, 9⟩ "u" "t").1 = 6 ∧ (reqBackendLogin ⟨true, 8, 40300, 9⟩ "u" "t").1 = 2 := by decide
 
 end Nx.C20
